@@ -6,11 +6,13 @@ _POOL = ["ia", "ib", "ic", "n1", "n2", "k1", "k2", "k3", "x", "y", "true", "5", 
          "core", "kernel", "gadget", "app", "os", "snapd", "base", "ubuntu", "debian", "fedora", "store1", "store2", "store3",
          "brand1", "brand2", "model1", "model2", "", "ubuntu-core", "substore", "k1.k1", "k2.k3", ".k1.", "k9", "$INTERFACE",
          "$OTHER", "$PLUG_PUBLISHER_ID", "$SLOT_PUBLISHER_ID", "$UNKNOWN", "brand1/model1", "brand1/model2", "brand2/model1",
-         "brand2/model2"]
+         "brand2/model2",
+         "led", "buzzer", "led-admin", "xbuzzer", "xn1x", "ledbuzzer", "le", "led|buzzer", "buzzer|led", "n1|n2", "led|n1|buzzer",
+         "ia|led", "n2|led-admin", "xq", "qy", "qxq", "x|y", "y|5|x", "true|-3"]
 
 
 def _ident(x):
-    for a, b in (("-", "_"), ("$", "D_"), (".", "_dot_"), ("/", "_sl_")):
+    for a, b in (("-", "_"), ("$", "D_"), (".", "_dot_"), ("/", "_sl_"), ("|", "_bar_")):
         x = x.replace(a, b)
     return "s_" + x
 
@@ -40,8 +42,8 @@ SPEC = dict(
           "with friendly stores), plug and slot (name, interface from 3, snap type from app/gadget/kernel/os/snapd/base, "
           "nested static and dynamic attributes), optional plug/slot snap-declarations and a base-declaration whose rules "
           "(per interface: shortcut, or up to six subrules each a shortcut, one alternative or a list) carry 1-3 constraints "
-          "from plug-names/slot-names (literals, $INTERFACE, unknown $X), plug/slot-attributes (maps, alternatives, nested maps, "
-          "literals, $MISSING, $SLOT(path), $PLUG(path), $PLUG/SLOT_PUBLISHER_ID), snap types, snap ids, publisher ids (incl. "
+          "from plug-names/slot-names (literals and top-level alternations of literals such as led|buzzer, $INTERFACE, unknown $X; candidate names include proper prefixes, suffixes, extensions and superstrings of the alternatives: le, led-admin, xbuzzer, ledbuzzer, xn1x), plug/slot-attributes (maps, alternatives, nested maps, "
+          "literals and alternations of literals (values include xq, qy, qxq next to x|y), $MISSING, $SLOT(path), $PLUG(path), $PLUG/SLOT_PUBLISHER_ID), snap types, snap ids, publisher ids (incl. "
           "$PLUG/$SLOT_PUBLISHER_ID, unknown $X), slots-per-plug, on-classic (bool or distro list), on-core-desktop, "
           "on-store/on-brand/on-model; presence per level is drawn so that each of the four levels decides in a fair share. "
           "Every declaration is signed with an assertstest key and decoded from its text form. 4% of the cases carry a "
@@ -51,11 +53,11 @@ SPEC = dict(
     exhaustive=dict(quick=False, thorough=False),
     trusted_base=[
         "hand-written model coq/models/Policy.v of interfaces/policy/{policy,helpers}.go, asserts/ifacedecls.go (rule compilation: shortcuts, defaults, alternatives) and asserts/constraint.go (attribute matchers, device scope), tied by the differential run (harness/overlay/zzverif/c21)",
-        "the driver classifies leaf strings of attribute constraints ($MISSING, $SLOT(), $PLUG(), $*_PUBLISHER_ID, literal) and projects snap.Info.Type() to a string; Go regexp is not modelled: generated name/attribute patterns are literals over [a-z0-9-]",
+        "the driver classifies leaf strings of attribute constraints ($MISSING, $SLOT(), $PLUG(), $*_PUBLISHER_ID, literal) and projects snap.Info.Type() to a string; Go regexp is not modelled: generated name/attribute patterns are literals or top-level alternations of literals over [a-z0-9-]",
         "release.OnClassic / release.ReleaseInfo / release.OnCoreDesktop are set by the driver (exported variables)",
     ],
     assumptions=[
-        "regular expressions in plug-names/slot-names and attribute constraints are restricted to literals (model and generator); the full regexp language is outside the model",
+        "regular expressions in plug-names/slot-names and attribute constraints are restricted to top-level alternations of literals (model and generator), matched against the whole string; the rest of the regexp language is outside the model",
         "attribute values are strings, bools, int64, lists and string-keyed maps (no nil, no floats)",
         "plugs-per-slot is not modelled (the code normalises it to `*` and never reads it)",
         "InstallCandidateMinimalCheck (--dangerous installs) is not modelled",
